@@ -746,6 +746,30 @@ func ruleLRPC(p *Program, r *Reporter) {
 		pos  token.Pos
 		fn   *ssa.Function
 		via  string
+		// boolean fields that are known false where the handler takes the lock (the
+		// acquisition is only reached past `if x.flag { ...; return }`)
+		whenFalse []*types.Var
+	}
+	flagsFalseAt := func(b *ssa.BasicBlock) []*types.Var {
+		var out []*types.Var
+		for _, f := range conjunctFacts(b) {
+			c, truth := normFact(f)
+			if truth {
+				continue
+			}
+			ld, ok := c.(*ssa.UnOp)
+			if !ok || ld.Op != token.MUL {
+				continue
+			}
+			if fa, ok := ld.X.(*ssa.FieldAddr); ok {
+				if fld := fieldOfAddr(fa); fld != nil {
+					if bt, isB := fld.Type().Underlying().(*types.Basic); isB && bt.Kind() == types.Bool {
+						out = append(out, fld)
+					}
+				}
+			}
+		}
+		return out
 	}
 	handlerLocks := map[*types.Var][]acq{}
 	regs := rpcRegistrations(p, "client", "Client")
@@ -777,7 +801,11 @@ func ruleLRPC(p *Program, r *Reporter) {
 					}
 					if op, isLock, cls := lockOpOf(cc); isLock {
 						if cls && op.acquire {
-							handlerLocks[op.key.field] = append(handlerLocks[op.key.field], acq{op.key.mode, ins.Pos(), g, reg.name})
+							var wf []*types.Var
+							if g == root {
+								wf = flagsFalseAt(b)
+							}
+							handlerLocks[op.key.field] = append(handlerLocks[op.key.field], acq{op.key.mode, ins.Pos(), g, reg.name, wf})
 						}
 						continue
 					}
@@ -829,6 +857,9 @@ func ruleLRPC(p *Program, r *Reporter) {
 						construct := fmt.Sprintf("%s holding %s needed by handler %s", sc.Name(), h.k, a.via)
 						if seenK[construct] {
 							continue
+						}
+						if flag := lrpcFlagProtects(p, la, fn, c, h.k.field, a.whenFalse); flag != nil {
+							continue // the handler only takes the lock while flag is false; it is true throughout this call
 						}
 						seenK[construct] = true
 						nbad++
@@ -2396,5 +2427,211 @@ func ruleTUUIDFREE(p *Program, r *Reporter) {
 	}
 	if n < 1 {
 		r.Anchor(id, "Transaction.Insert: call building the update (AddOperation)")
+	}
+}
+
+// lrpcFlagProtects: one of the boolean fields under whose falsity the handler
+// takes lock L is provably true for the whole duration of RPC call c in fn:
+//   - a store of the constant true to the flag dominates c in fn, and no store of
+//     another value (in fn, or in a function called from fn) can come between,
+//   - every store of another value to the flag, anywhere in the package, happens
+//     with L held exclusively (by the function or all its callers) - and L is
+//     held across c, so nobody else can clear the flag meanwhile.
+func lrpcFlagProtects(p *Program, la *lockAnalysis, fn *ssa.Function, c *ssa.Call, lock *types.Var, flags []*types.Var) *types.Var {
+	isTrue := func(v ssa.Value) bool {
+		k, ok := v.(*ssa.Const)
+		return ok && k.Value != nil && k.Value.Kind() == constant.Bool && constant.BoolVal(k.Value)
+	}
+	for _, flag := range flags {
+		// stores to the flag, per function
+		type st struct {
+			fn   *ssa.Function
+			ins  *ssa.Store
+			true bool
+		}
+		var stores []st
+		clears := map[*ssa.Function]bool{}
+		for _, g := range p.srcFuncs {
+			if pkgOf(g) != pkgOf(fn) {
+				continue
+			}
+			for _, b := range g.Blocks {
+				for _, ins := range b.Instrs {
+					s, ok := ins.(*ssa.Store)
+					if !ok {
+						continue
+					}
+					fa, ok := s.Addr.(*ssa.FieldAddr)
+					if !ok || fieldOfAddr(fa) != flag || baseIsLocalAlloc(fa.X) {
+						continue
+					}
+					stores = append(stores, st{g, s, isTrue(s.Val)})
+					if !isTrue(s.Val) {
+						clears[g] = true
+					}
+				}
+			}
+		}
+		// functions that may clear the flag, transitively through static calls
+		for changed := true; changed; {
+			changed = false
+			for _, g := range p.srcFuncs {
+				if clears[g] || pkgOf(g) != pkgOf(fn) {
+					continue
+				}
+				for _, b := range g.Blocks {
+					for _, ins := range b.Instrs {
+						if ci, ok := ins.(*ssa.Call); ok {
+							if sc := ci.Call.StaticCallee(); sc != nil && clears[sc] {
+								clears[g] = true
+								changed = true
+							}
+						}
+					}
+				}
+			}
+		}
+		armed := flagArmedAt(p, fn, c, flag)
+		if !armed {
+			continue
+		}
+		allUnderLock := true
+		for _, s := range stores {
+			if s.true {
+				continue
+			}
+			if ok, _ := la.heldAt(s.fn, s.ins, lock, true, map[*ssa.Function]bool{}, 0); !ok {
+				allUnderLock = false
+			}
+		}
+		if allUnderLock {
+			return flag
+		}
+	}
+	return nil
+}
+
+// flagArmedAt: a store of the constant true to boolean field flag dominates
+// call c in fn, and no store of another value to it - in fn, or in a function of
+// the package that fn calls - can execute between that store and c.
+func flagArmedAt(p *Program, fn *ssa.Function, c *ssa.Call, flag *types.Var) bool {
+	isTrue := func(v ssa.Value) bool {
+		k, ok := v.(*ssa.Const)
+		return ok && k.Value != nil && k.Value.Kind() == constant.Bool && constant.BoolVal(k.Value)
+	}
+	clears := map[*ssa.Function]bool{}
+	var arming []*ssa.Store
+	for _, g := range p.srcFuncs {
+		if pkgOf(g) != pkgOf(fn) {
+			continue
+		}
+		for _, b := range g.Blocks {
+			for _, ins := range b.Instrs {
+				s, ok := ins.(*ssa.Store)
+				if !ok {
+					continue
+				}
+				fa, ok := s.Addr.(*ssa.FieldAddr)
+				if !ok || fieldOfAddr(fa) != flag || baseIsLocalAlloc(fa.X) {
+					continue
+				}
+				if !isTrue(s.Val) {
+					clears[g] = true
+				} else if g == fn {
+					arming = append(arming, s)
+				}
+			}
+		}
+	}
+	for changed := true; changed; {
+		changed = false
+		for _, g := range p.srcFuncs {
+			if clears[g] || pkgOf(g) != pkgOf(fn) {
+				continue
+			}
+			for _, b := range g.Blocks {
+				for _, ins := range b.Instrs {
+					if ci, ok := ins.(*ssa.Call); ok {
+						if sc := ci.Call.StaticCallee(); sc != nil && clears[sc] {
+							clears[g] = true
+							changed = true
+						}
+					}
+				}
+			}
+		}
+	}
+	fc := newFlowCtx(fn)
+	for _, s := range arming {
+		if !(s.Block() == c.Block() && fc.instrIdx[s] < fc.instrIdx[c] || s.Block() != c.Block() && s.Block().Dominates(c.Block())) {
+			continue
+		}
+		clean := true
+		for _, b := range fn.Blocks {
+			for _, ins := range b.Instrs {
+				clearing := false
+				if w, ok := ins.(*ssa.Store); ok {
+					if fa, ok := w.Addr.(*ssa.FieldAddr); ok && fieldOfAddr(fa) == flag && !isTrue(w.Val) {
+						clearing = true
+					}
+				}
+				if ci, ok := ins.(*ssa.Call); ok && ci != c {
+					if sc := ci.Call.StaticCallee(); sc != nil && clears[sc] && sc != fn {
+						clearing = true
+					}
+				}
+				if !clearing {
+					continue
+				}
+				if ins.Block() == c.Block() {
+					if fc.instrIdx[ins] < fc.instrIdx[c] && fc.canFollow(s, ins) {
+						clean = false
+					}
+				} else if fc.canFollow(s, ins) && fc.canFollow(ins, c) {
+					clean = false
+				}
+			}
+		}
+		if clean {
+			return true
+		}
+	}
+	return false
+}
+
+// ---------------------------------------------------------------------------
+// DEFER-ARM — notifications that overtake the reply to a monitor request are
+// buffered: every monitor RPC in (*ovsdbClient).monitor is made with
+// deferUpdates armed (a dominating store of true, nothing in between that
+// clears it). Without it the notifications for an additional monitor are
+// applied to a cache that does not hold its initial contents yet.
+
+func ruleDEFERARM(p *Program, r *Reporter) {
+	const id = "DEFER-ARM"
+	mon := p.Fn("client", "ovsdbClient", "monitor")
+	flag := p.Field("client", "database", "deferUpdates")
+	if mon == nil || flag == nil {
+		r.Anchor(id, "client.(*ovsdbClient).monitor / database.deferUpdates")
+		return
+	}
+	n := 0
+	for _, b := range mon.Blocks {
+		for _, ins := range b.Instrs {
+			c, ok := ins.(*ssa.Call)
+			if !ok {
+				continue
+			}
+			sc := c.Call.StaticCallee()
+			if sc == nil || sc.Pkg == nil || sc.Pkg.Pkg.Path() != "github.com/cenkalti/rpc2" || (sc.Name() != "Call" && sc.Name() != "CallWithContext") {
+				continue
+			}
+			n++
+			armed := flagArmedAt(p, mon, c, flag)
+			r.Ob(id, funcName(mon), "monitor request sent with deferral armed", c.Pos(), armed, true,
+				ifs(armed, "deferUpdates is set before the request and nothing clears it until the reply has been applied", "the monitor request is sent without deferUpdates being set first: for an additional monitor on a connection (the flag was cleared when the first one was populated) a notification that overtakes the reply is applied to a cache that does not hold the initial contents yet - the change is refused or lost, and the older snapshot then stays"))
+		}
+	}
+	if n < 1 {
+		r.Anchor(id, "monitor(): blocking monitor RPC")
 	}
 }
